@@ -153,6 +153,8 @@ def _part_a(case: dict, root: str) -> dict:
         probes["patch_column_and_centres_given"] = 1
     try:
         base = dict(digest=o["digest"], nontrivial=o["nontrivial"], steps=o["steps"], head=o["head"], choices=o["choices"])
+        if o.get("degenerate_centres"):
+            return dict(base, verdict="discard", detail="k-means produced a non-finite centre")
         if o["verdict"] != Verdict.COMPLETE or o["outcome"] != "returned":
             return dict(base, verdict="discard", detail=f"creation did not return ({o['verdict']}/{o['outcome']} {o.get('exc_type')})")
         cat = o["catalog"]
